@@ -104,7 +104,22 @@ def threaded_nested_sample(ctx, n):
             b = b.map(lambda x: x + 1)
         a.buffer(1) if i % 3 == 2 else None
         b.sink(got.append)
-        a.sink(b.emit)
+        forwards = 1
+        if (i // 6) % 3 == 1:
+            # two sibling consumers, each re-emitting into a loop-bound blocking stream, while ONE element is handled
+            c = Stream(asynchronous=False)
+            c.sink(got.append)
+            a.sink(b.emit)
+            a.sink(c.emit)
+            forwards = 2
+        elif (i // 6) % 3 == 2:
+            def twice(x, b=b):
+                b.emit(x)
+                b.emit(x)
+            a.sink(twice)
+            forwards = 2
+        else:
+            a.sink(b.emit)
         box = {}
 
         def work():
@@ -116,14 +131,14 @@ def threaded_nested_sample(ctx, n):
         t = threading.Thread(target=work, daemon=True)
         t.start()
         t.join(30)
-        case = {"threaded": True, "nested": True, "variant": i % 6}
+        case = {"threaded": True, "nested": True, "variant": i % 18}
         ctx.case(case, nontrivial=True)
         ctx.count("threaded-nested")
         if t.is_alive():
             ctx.failure("threaded-nested-emit-deadlock", "blocking emit() did not return within 30 s when its consumer re-emits into another "
                         "blocking stream on the same loop thread (nested emit)", case)
             return
-        if box.get("err") or len(got) != 1:
+        if box.get("err") or len(got) != forwards:
             ctx.failure("threaded-nested-emit-lost", "nested blocking emit: outer emit %r, inner consumer received %r" % (box, got), case)
 
 
@@ -168,7 +183,7 @@ def run(ctx):
     for m in corr_modules():
         m.run(ctx, "C03", 40 if not ctx.thorough() else 1500)
     threaded_sample(ctx, 12 if not ctx.thorough() else 120)
-    threaded_nested_sample(ctx, 6 if not ctx.thorough() else 30)
+    threaded_nested_sample(ctx, 18 if not ctx.thorough() else 54)
     source_backpressure(ctx, 60 if not ctx.thorough() else 1500)
     ctx.coverage["rule"] = ("(A) graph-family generator in asynchronous mode with harness-completed consumers of three flavours; (B) asynchronous pipelines as in C02 "
                             "with awaited and un-awaited producers; (C) 12/120 threaded blocking emits; (D) 60/1500 source histories (from_periodic, from_textfile, "
@@ -184,7 +199,7 @@ def replay(ctx, data):
     if "source" in case:
         source_backpressure(ctx, 1, [case["source"]])
     elif case.get("threaded") and case.get("nested"):
-        threaded_nested_sample(ctx, 6)
+        threaded_nested_sample(ctx, 18)
     elif case.get("threaded"):
         threaded_sample(ctx, 12)
     elif any(op["op"] in ("advance", "settle", "jobdone") for op in case["ops"]) or any(n["kind"] in ac.HOLDING for n in case["nodes"]):
